@@ -131,19 +131,19 @@ func SetPreemptionBound(n int)    {}
 
 // SpawnRunsFirst(true): at every go statement executed under a preemption bound > 0 the engine
 // also explores "the new goroutine runs first" without charging a preemption.
-func SpawnRunsFirst(on bool)       {}
-func Tier() int                    { return 0 }
-func RaceMonitor(on bool)          {}
-func Track(obj any, tag string)    {}
-func JoinAll()                     {}
-func Quiescent()                   {}
-func Yield()                       {}
-func Mutation(label string)        {}
-func EnableCrash(on bool)          {}
-func RunCrashable(f func()) bool   { f(); return false }
-func NumThreads() int              { return 1 }
-func FreshUUID() string            { return "00000000-0000-4000-8000-000000000000" }
-func Symbolic() bool               { return false }
+func SpawnRunsFirst(on bool)     {}
+func Tier() int                  { return 0 }
+func RaceMonitor(on bool)        {}
+func Track(obj any, tag string)  {}
+func JoinAll()                   {}
+func Quiescent()                 {}
+func Yield()                     {}
+func Mutation(label string)      {}
+func EnableCrash(on bool)        {}
+func RunCrashable(f func()) bool { f(); return false }
+func NumThreads() int            { return 1 }
+func FreshUUID() string          { return "00000000-0000-4000-8000-000000000000" }
+func Symbolic() bool             { return false }
 
 // ScratchDir names a directory a harness may create a database in: a fixed name inside the
 // engine's file-system model, a fresh temporary directory when replayed natively (nothing is
